@@ -31,6 +31,27 @@ OBLIGATIONS = [
              "exactly the numeric entries are examined; each share deleted only if expired+enabled+selected and always if so; corrupt share "
              "recorded and kept; actual-buckets counts the bucket iff all its shares were deleted; actual-shares == number deleted",
         outside="bucket directory removal itself (done by the storage server, not the crawler)"),
+    chx("two_cycles_mutable", "C26b_h", "h_two_cycles_mutable",
+        cases={"quick": [{"version": 2, "slot_b": 1, "cutoff_mode": False, "_label": "v2-age-slot1"},
+                         {"version": 1, "slot_b": 2, "cutoff_mode": True, "_label": "v1-cutoff-slot2"}],
+               "thorough": [{"version": v, "cutoff_mode": m, "_label": "v%d-%s" % (v, "cutoff" if m else "age")}
+                            for v in (1, 2) for m in (False, True)]},
+        timeout=T,
+        desc="LeaseCheckingCrawler.process_share in two successive cycles (clock t1 <= t2) on a real MutableShareFile container (fake file system): "
+             "lease A in header slot 0, lease B in slot 1..3, symbolic expiries, age or cutoff policy: each cycle sees exactly the leases still on the "
+             "share (real get_leases/_enumerate_leases/_read_lease_record over blanked slots), cancels exactly the expired ones in place, and the share is "
+             "unlinked exactly when no unexpired lease remains - never while B is valid after A was cancelled",
+        outside="extra-lease area (5th and later leases), container resizing (C23/C25/C29)"),
+    chx("cycle_deletes_expired", "C26c_h", "h_cycle_deletes_expired",
+        bounds={"quick": {"J": 30}, "thorough": {"J": 40}},
+        cases={"quick": [{"layout": [["aa1", "aa2"], [], ["ac1"]], "_label": "L"}],
+               "thorough": [{"layout": [["aa1", "aa2", "aa3"], [], ["ac1"]], "_label": "L"},
+                            {"prefixes": ["aa", "bq", "b3"], "layout": [["aa1"], ["bqx", "bqy"], ["b3a"]], "_label": "digit-prefix"}]},
+        timeout=T,
+        desc="one complete crawl cycle of the real LeaseCheckingCrawler (C27's slice/state skeleton, expiration enabled) over buckets whose directory "
+             "listings come in an arbitrary (symbolic) order, with one time-slice interruption at any clock read: every share whose only lease has "
+             "expired is deleted within that cycle, the share with a valid lease (symbolic choice) is kept, each share examined once, history counters agree",
+        outside="container-level lease removal (process_share obligation, C25); kills / restarts (C27)"),
     chx("config_policy", "C26_h", "h_config_policy",
         cases=[{"md": m, "_label": ("nomode", "age", "cutoff", "bogus")[m]} for m in (0, 1, 2, 3)],
         bounds={"quick": {"explicit_true": False}, "thorough": {"explicit_true": True}},
